@@ -355,7 +355,7 @@ def read_sim_traces(prefix_dir):
         with open(p, encoding="utf-8") as fh:
             txt = fh.read()
         # blocks:  \* <Action line ...>  /  STATE_n == \n /\ ...
-        for m in re.finditer(r"\\\* (?:<(\w+) line[^>]*>|(Initial predicate))[^\n]*\nSTATE_\d+ ==\n(.*?)(?=\n\n|\Z)", txt, re.S):
+        for m in re.finditer(r"\\\* (?:<(\w+(?:\([^)]*\))?) line[^>]*>|(Initial predicate))[^\n]*\nSTATE_\d+ == ?\n(.*?)(?=\n\n|\Z)", txt, re.S):
             name = m.group(1) or "Init"
             beh.append((name, parse_state(m.group(3))))
         if beh:
